@@ -127,6 +127,10 @@ def _migrate_csv_to_rules(csv_file: str, config_dir: str, backup: bool = True) -
         tmp_file = new_file + '.tmp'
         with open(tmp_file, 'w', encoding='utf-8') as f:
             f.write(content)
+        if os.path.exists(new_file):
+            # A merchants.rules that settings.yaml does not use yet: keep it
+            os.replace(new_file, new_file + '.bak')
+            print(f"  {C.GREEN}✓{C.RESET} Backed up: existing merchants.rules → .bak")
         os.replace(tmp_file, new_file)
         print(f"  {C.GREEN}✓{C.RESET} Created: config/merchants.rules")
         print(f"      Converted {len(csv_rules)} merchant rules to new format")
